@@ -326,9 +326,12 @@ func (env *Env) c18Bank() {
 	alts := e.EntryPaths(fn, flow.ModeErr)
 	okMax := len(alts) > 0
 	for _, a := range alts {
-		if hasGate(a, func(t *flow.Term) bool {
+		// per element (index <= 3 inside the loop) or once, in front of it (len <= 4)
+		perElem := hasGate(a, func(t *flow.Term) bool {
 			return pat.IntLe(iterFrom(pat.Const("0"), nil), 3)(t, pat.Bind{})
-		}, true) == nil {
+		}, true) != nil
+		upFront := hasGateAny(a, pat.IntLe(pat.Len(pat.Is(rt)), 4)) != nil
+		if !perElem && !upFront {
 			okMax = false
 		}
 	}
